@@ -57,12 +57,13 @@ Fixpoint put (sysb payload : Z) (w : waiters) : option waiters :=
   | [] => None
   | (k, q) :: r => if k =? sysb then Some ((k, q ++ [payload]) :: r) else option_map (cons (k, q)) (put sysb payload r)
   end.
-(* every inbound message goes to the requester waiting for its system bytes, otherwise to the application, in arrival order *)
-Fixpoint route (w : waiters) (arrivals : list (Z * Z)) : waiters * list (Z * Z) :=
+(* every inbound message that can be a reply (no W-bit) goes to the requester waiting for its system bytes, everything else - also a
+   primary of the peer (W-bit) that happens to carry the system bytes of an open transaction - to the application, in arrival order *)
+Fixpoint route (w : waiters) (arrivals : list (Z * Z * bool)) : waiters * list (Z * Z) :=
   match arrivals with
   | [] => (w, [])
-  | (sysb, payload) :: r =>
-    match put sysb payload w with
+  | (sysb, payload, wbit) :: r =>
+    match (if wbit then None else put sysb payload w) with
     | Some w1 => route w1 r
     | None => let '(w2, app) := route w r in (w2, (sysb, payload) :: app)
     end
